@@ -6,7 +6,7 @@
 (*   analysed(parts,sweeps) - the standard pipeline ran on a clone of the    *)
 (*                            same parsed program: must equal the first run  *)
 (*   extra(pass,parts,sweeps) - one more pass ran: observables unchanged     *)
-(* Sweep bound: PassOps!SweepLimit(N) = 4 * N + 3 (PassLoop.tla: 4 * N - 1     *)
+(* Sweep bound: PassOps!SweepLimit(N) = 4 * N + 3 (PassLoop.tla, one fact: 2 * N + 1     *)
 (* is reached by chains of dead loops).                                       *)
 EXTENDS Integers, Sequences, TLC, Json, IOUtils, PassOps
 Rec == ndJsonDeserialize(IOEnv.TRACE)
